@@ -30,7 +30,7 @@ REQUIRED_MONITORS = ('cli_vs_library_bytes', 'discovery_vs_truth', 'discovery_ha
 REQUIRED_CLASSES = ('mol:explicit-only', 'mol:explicit+auto', 'auto-only', 'exclude', 'exclude:several', 'output:given', 'output:default',
                     'input:other-directory', 'distractor:absent-species-topology', 'distractor:foreign-coordinates',
                     'distractor:unknown-extension', 'distractor:system-file-in-list', 'distractor:previous-output', 'distractor:impostor-topology',
-                    'species-without-end-files', 'explicit-also-in-list', 'mol:end-topology-named-differently', 'candidates:files-listed-twice', 'paths:explicit-and-listed-spelled-differently', 'scale:non-default', 'output-path:absolute',
+                    'species-without-end-files', 'explicit-also-in-list', 'explicit-also-in-list:every-file-spelled-differently', 'mol:end-topology-named-differently', 'candidates:files-listed-twice', 'paths:explicit-and-listed-spelled-differently', 'scale:non-default', 'output-path:absolute',
                     'output-path:relative-plain', 'output-path:relative-subdir')
 RULE = ('generated directories of 2-4 species with distractor files (topologies of absent species, foreign coordinate files, '
         'unknown extensions, the system file and a previous output in the candidate list, a species without end files) x '
@@ -297,10 +297,16 @@ def run_world(ctx, case):
     else:
         explicit = []
         mode = 'auto-only'
-    def respell(path):
+    # every other explicit+auto case: the explicit species are also in the scanned list, every one of their files under
+    # another spelling than the one given with --mol
+    hostile_spelling = (mode == 'explicit+auto' and (i // 3) % 2 == 0)
+    styles = {}
+
+    def respell(path, style=None):
         # another spelling of the same absolute path (as produced by shell completion, scripts joining directories, ...)
         d, f = os.path.split(path)
-        style = int(rng.integers(0, 4))
+        style = int(rng.integers(0, 4)) if style is None else style
+        styles[path] = style
         if style == 0:
             return path
         ctx.hit('paths:explicit-and-listed-spelled-differently')
@@ -324,12 +330,16 @@ def run_world(ctx, case):
     candidates = []
     if auto:
         for n in names:
-            if n in explicit and rng.random() < 0.5:
+            if n in explicit and rng.random() < 0.5 and not hostile_spelling:
                 continue
-            candidates += [w['files'][n]['top_start']] + ([w['files'][n]['gro_end'], w['files'][n]['top_end']] if n in complete else [])
-        if any(w['files'][n]['top_start'] in candidates for n in explicit):
+            mine = [w['files'][n]['top_start']] + ([w['files'][n]['gro_end'], w['files'][n]['top_end']] if n in complete else [])
+            if n in explicit and hostile_spelling:
+                triple(n)
+                mine = [respell(c, (styles[c] + 1 + int(rng.integers(0, 3))) % 4) for c in mine]
+            candidates += mine
+        if any(os.path.realpath(w['files'][n]['top_start']) in {os.path.realpath(c) for c in candidates} for n in explicit):
             ctx.hit('explicit-also-in-list')
-        candidates = [respell(c) if rng.random() < 0.3 else c for c in candidates]
+        candidates = [respell(c) if (rng.random() < 0.3 and os.path.normpath(c) == c) else c for c in candidates]
         if rng.random() < 0.4:
             # the same file named more than once (overlapping shell globs)
             for c in [candidates[int(j)] for j in rng.integers(0, len(candidates), int(rng.integers(1, 4)))]:
@@ -337,6 +347,13 @@ def run_world(ctx, case):
             ctx.hit('candidates:files-listed-twice')
         candidates += extra
         candidates = [candidates[int(j)] for j in rng.permutation(len(candidates))]
+        for n in explicit:
+            mine = triple(n)
+            same_file = [c for c in candidates if os.path.realpath(c) == os.path.realpath(mine[0])]
+            if same_file and any(c != mine[0] for c in same_file):
+                ctx.hit('explicit-also-in-list:spelled-differently')
+            if all(any(os.path.realpath(c) == os.path.realpath(m) for c in candidates) and m not in candidates for m in mine):
+                ctx.hit('explicit-also-in-list:every-file-spelled-differently')
     auto_found = [n for n in complete if n not in explicit] if auto else []
     excluded = []
     if auto and auto_found and len(auto_found) + len(explicit) >= 2 and (many or rng.random() < 0.6):
